@@ -136,6 +136,10 @@ func MakeEncodedCompArray() [256]byte {
 	compArray[EA['?']] = EA['?']
 	compArray[EA['-']] = EA['-']
 
+	// the hard-gaps encoding of '-' (no base) is its own complement too
+	EAHG := encoding.MakeEncodingArrayHardGaps()
+	compArray[EAHG['-']] = EAHG['-']
+
 	return compArray
 }
 
